@@ -1,6 +1,7 @@
 package props
 
 import (
+	"go/types"
 	"fmt"
 	"go/ast"
 	"go/token"
@@ -19,7 +20,7 @@ func init() {
 		Explanation: "Decides the selection/evaluation mechanism, not the operators' and transformations' values: R1 key normalisation agrees between compile time, store time and lookup time (tables extracted from caseSensitiveVariable, NewTransactionVariables and every method indexing the backing map: each lookup folds its key exactly like Map.Add does; regex selectors need compile-time folding == store-time folding); " +
 			"R2 GetField dispatches KeyRx!=nil -> FindRegex, KeyStr!=\"\" -> FindString, else FindAll, filters exceptions before counting, and the count datum is len(filtered) labelled with the rule's variable and key; R3 Operator.Evaluate is invoked only from executeOperator and negated iff operator.Negation, which only SetOperator writes; " +
 			"R4 the match datum appended by doEvaluate is (arg.Variable(), arg.Key(), transformed value) and dominated by match==true; R5 RuleGroup.rules is only appended or order-preservingly filtered and Eval walks it by ascending index; R6 a chain's actions and MatchRule are reachable only after every link returned a non-empty match list; " +
-			"R7 the phase filter lets a rule run only when Phase_==0 or Phase_==phase (non-multiphase builds); R8 selection loops are complete: concatenating views visit every member, result builders emit one datum per stored value, the exception predicate keeps its three disjuncts and AddVariableNegation visits every target (no early exit in any of these loops).",
+			"R7 the phase filter lets a rule run only when Phase_==0 or Phase_==phase (non-multiphase builds); R8 selection loops are complete: concatenating views visit every member, result builders emit one datum per stored value, the exception predicate keeps its three disjuncts, AddVariableNegation visits every target, and the three evaluation loops of Rule.doEvaluate (targets, selected values, transformed values) are never left from inside (no early exit in any of these loops).",
 		NotDecided: []string{
 			"that operators and transformations compute the right values (C14, C15)",
 			"regular-expression key semantics, exclusion semantics beyond the normalisation used",
@@ -713,6 +714,36 @@ func c01Completeness(c *an.Ctx) {
 				"the loop over "+what+" can be left from inside: the remaining values are never offered to the operator, so matches are missed and the reported match data is incomplete (and, values being selected in map order, differs between runs)")
 		}
 		c.MinCount("R8", "evaluation loops in doEvaluate", nEv, 3)
+	}
+	// the size view (ARGS_COMBINED_SIZE ...) measures what was received: it sums the lengths of the key and of the
+	// value *stored with each pair* (the name as received), never the length of the folded map index
+	if sz := c.Fn("R8", "internal/collections.(*SizeCollection).size"); sz != nil {
+		fields := map[string]bool{}
+		bad := ""
+		an.Instrs(sz, func(in ssa.Instruction) {
+			if !an.IsBuiltinCall(in, "len") {
+				return
+			}
+			arg := an.CallOf(in).Args[0]
+			if !isStringType(arg.Type()) {
+				return // len of a slice: loop bound
+			}
+			if u, ok := arg.(*ssa.UnOp); ok {
+				if fa, ok := u.X.(*ssa.FieldAddr); ok {
+					fields[an.FieldVar(fa).Name()] = true
+					return
+				}
+			}
+			if f, ok := arg.(*ssa.Field); ok {
+				if st, ok := f.X.Type().Underlying().(*types.Struct); ok {
+					fields[st.Field(f.Field).Name()] = true
+					return
+				}
+			}
+			bad = tempName.ReplaceAllString(an.Expr(arg), "")
+		})
+		c.Check(bad == "" && fields["key"] && fields["value"], "R8", "SizeCollection.size sums the stored key and value of every pair", sz.Pos(), "len(pair.key) + len(pair.value)",
+			"the combined size is computed from len("+bad+") (fields measured: "+strings.Join(sortedKeys(fields), ",")+") rather than from the key and value stored with each pair: for names whose folded form has another byte length (non-ASCII upper case, invalid UTF-8) the variable no longer equals the number of bytes received")
 	}
 	// concat views relabel with their own variable
 	for _, name := range []string{"internal/collections.(*ConcatCollection).FindAll", "internal/collections.(*ConcatKeyed).FindAll", "internal/collections.(*ConcatKeyed).FindRegex", "internal/collections.(*ConcatKeyed).FindString"} {
